@@ -350,7 +350,8 @@ func exec(op string) string {
 		if !ok || n.Sign() < 0 {
 			return "bad-op"
 		}
-		return "s " + common.GenerateCallDataBigInt(n)
+		cd := common.GenerateCallDataBigInt(n)
+		return "s " + cd + " arg-after=" + n.String() // BigIntBase10toN consumes its argument: the caller's big.Int is left at 0
 	case w[0] == "size" && len(w) == 3:
 		b, err := hx.UnHex(w[1])
 		d, err2 := strconv.ParseInt(w[2], 10, 64)
